@@ -315,6 +315,38 @@ def kl_members():
     return M
 
 
+def chain_member(ci, form):
+    """k*E(maxof(...)) + affine, built by a chain of operations on the real expression, used on its convex side in a dro
+    model (ExpPiecewiseConvex); the pieces include decision-only pieces with non-zero constants."""
+    from .detgen import MEANING_CHAINS, chain_apply
+    chain = MEANING_CHAINS[ci]
+
+    def desc(a):
+        p = a.scen(3)
+        x = a.dvar(())
+        y = a.dvar(())
+        u = a.dvar(())
+        z = a.rvar(())
+        F = a.ambiguity()
+        for s, v in enumerate([-1.0, 0.5, 2.0]):
+            a.supp(F, [s], a.eq(z, v))
+        a.prob(F, a.eq(p, A([0.25, 0.5, 0.25])))
+        f = a.E(a.maxof(x * z, 0.5 * x - 1.0, 1.0 + 0.0 * x)) if form != 'min' else \
+            a.E(a.minof(x * z, 0.5 * x - 1.0, 1.0 + 0.0 * x))
+        g, k = chain_apply(f, chain, y)
+        convex = (k > 0) if form != 'min' else (k < 0)
+        a.st(a.le(g, u) if convex else a.ge(g, u), forall=F)
+        (a.minsup if convex else a.maxinf)(a.E(u + 0.25 * y), F)
+        a.st(a.ge(x, -2.0))
+        a.st(a.le(x, 2.0))
+        a.st(a.ge(y, -2.0))
+        a.st(a.le(y, 2.0))
+        a.st(a.ge(u, -40.0))
+        a.st(a.le(u, 40.0))
+    desc.__name__ = 'chainE%d%s' % (ci, form)
+    return desc
+
+
 def random_kl_member(seed):
     """Seeded dro member whose probability set is a KL ball (or an entropy level set): 2-3 scenarios, singleton or interval
     supports of a scalar random variable, dyadic data, affine / two-piece objective, optional expectation constraint."""
@@ -464,6 +496,10 @@ def lookup(name):
     K = kl_members()
     if name in K:
         return K[name]
+    if name.startswith('chainE'):
+        import re
+        mm = re.match(r'chainE(\d+)(max|min)$', name)
+        return chain_member(int(mm.group(1)), mm.group(2))
     if name.startswith('randkl'):
         return random_kl_member(int(name[6:]))
     if name.startswith('rand'):
